@@ -1507,7 +1507,9 @@ request_parse(u8 *packet, int length, struct evdns_server_port *port,
 	GET16(additional);
 
 	if (flags & _QR_MASK) return -1; /* Must not be an answer. */
-	flags &= (_RD_MASK|_CD_MASK); /* Only RD and CD get preserved. */
+	/* Only RD, CD and the opcode get preserved (the opcode is tested
+	 * below and copied into the response). */
+	flags &= (_RD_MASK|_CD_MASK|_OP_MASK);
 
 	server_req = mm_malloc(sizeof(struct server_request));
 	if (server_req == NULL) return -1;
